@@ -59,6 +59,10 @@ def micro(name):
                 "payloads": pay, "init": [[snd3(0, 4, 2)], [], [snd3(0, 2, 4)]],
                 "trans": [[tr(0, []), tr(0, [snd3(1, 1, 1)]), tr(0, []), tr(0, [snd3(1, 1, 5), snd3(2, 3, 3)]), tr(1, [])],
                           [tr(1, []), tr(1, []), tr(1, []), tr(1, []), tr(1, [])]]}
+    if name == "m4":   # spec/TimeWarpMC_m4.tla: a quiet LP (two events of its own, a third from the other LP): fossil collection that finds nothing new
+        return {"seed": 0, "family": "micro_m4", "nlps": 2, "K": 2, "T": 2, "P": 1, "split": 2, "need": [99, 99], "cap": [99, 99], "endmask": [1, 1],
+                "payloads": pay, "init": [[snd(0, 2, 1), snd(0, 5, 1)], [snd(0, 3, 2)]],
+                "trans": [[tr(1, []), tr(0, [snd(1, 1, 1)])], [tr(0, []), tr(1, [])]]}
     if name == "d1":   # spec/TimeWarpMC_d1.tla: the LPs of m1 on two ranks
         return dict(micro("m1"), family="micro_d1")
     if name == "d2":   # spec/TimeWarpMC_d2.tla: 3 LPs over 2 ranks (rank 0: LP0, LP1 on two threads; rank 1: LP2)
